@@ -46,6 +46,10 @@ def shim_abs(x):
 def shim_int(x=0, *a):
     if is_sym(x):
         if z3.is_int(x):
+            from .runtime import FC, concretize
+            if FC.active and not current().frames:
+                # int() in glue produces a real Python number (it goes into slice(), range(), sizes): one path per possible value
+                return concretize(x, -64, 64)
             return x
         return SF(False, x).to_int() if z3.is_real(x) else z3.If(x, z3.IntVal(1), z3.IntVal(0))
     if isinstance(x, SF):
@@ -563,6 +567,19 @@ def _no_log(x):
 
 
 # ------------------------------------------------------------------ numba
+class _ChainNS(dict):
+    """module namespace of a shadow module plus the closure variables of one function (globals() of the converted code)"""
+    def __init__(self, base, extra):
+        dict.__init__(self, extra)
+        self._base = base
+
+    def __missing__(self, k):
+        return self._base[k]
+
+    def __contains__(self, k):
+        return dict.__contains__(self, k) or k in self._base
+
+
 class KernelObj:
     """stands for an @nb.njit function: lazily if-converts the function's own source and runs it"""
     def __init__(self, pyfunc, shadow):
@@ -578,12 +595,34 @@ class KernelObj:
         if self._conv is None:
             sm = self.shadow.engine.module_of(self.py_func)
             node = sm.find_funcdef(self.py_func)
-            self._conv = ifconv.convert(node, sm.relpath, sm.ns, None)
+            ns = sm.ns
+            clo = getattr(self.py_func, "__closure__", None)
+            if clo:
+                # an implementation returned by an @overload template may close over values computed from the argument types
+                ns = _ChainNS(sm.ns, dict(zip(self.py_func.__code__.co_freevars, [c.cell_contents for c in clo])))
+            self._conv = ifconv.convert(node, sm.relpath, ns, None)
             sm.encoded.add(sm.relpath + "::" + self.py_func.__qualname__.replace("<locals>.", ""))
         return self._conv
 
     def __call__(self, *a, **k):
-        return self.converted()(*a, **k)
+        # numba dispatches @overload templates on the TYPE of a scalar; terms of the solver carry no machine type, so integer scalars
+        # inside a kernel that received an unsigned value array are typed as that array's element type (inherited by nested kernels)
+        hint = None
+        for x in list(a) + list(k.values()):
+            xs = x if isinstance(x, (list, tuple)) else [x]
+            for y in xs:
+                if isinstance(y, A) and y.dtype.kind == "u":
+                    hint = real_nb.from_dtype(y.dtype)
+        if hint is None:
+            return self.converted()(*a, **k)
+        _INT_SCALAR_HINT.append(hint)
+        try:
+            return self.converted()(*a, **k)
+        finally:
+            _INT_SCALAR_HINT.pop()
+
+
+_INT_SCALAR_HINT = []
 
 
 class NBShim:
@@ -639,7 +678,7 @@ def nb_type_of(x):
     if isinstance(x, bool) or (is_sym(x) and z3.is_bool(x)):
         return real_nb.types.boolean
     if isinstance(x, int) or is_sym(x):
-        return real_nb.types.int64
+        return _INT_SCALAR_HINT[-1] if _INT_SCALAR_HINT else real_nb.types.int64
     if isinstance(x, real_np.generic):
         return real_nb.typeof(x)
     raise Unsupported(f"numba type of {type(x).__name__}")
@@ -667,7 +706,8 @@ class Overloads:
                 if impl is dispatch:
                     impl = orig
                 if impl is not None:
-                    k = id(impl) if impl is orig else (t.__name__, impl.__code__.co_firstlineno)
+                    clo = tuple(repr(c.cell_contents) for c in (getattr(impl, "__closure__", None) or ()))
+                    k = id(impl) if impl is orig else (t.__name__, impl.__code__.co_firstlineno, clo)
                     if k not in cache:
                         cache[k] = KernelObj(impl, shadow)
                     return cache[k](*args)
